@@ -98,7 +98,8 @@ fn main() {
                 "c18_shlib" => ("C18", c18s::part_shlib(tier)),
                 "c17_names" => ("C17", c17e::part_names(tier)),
                 "c12_second" => ("C12", c12::part_second_lifecycle(tier)),
-                "c19_regs" => ("C19", c19r::part_registers(tier)),
+                "c19_regs" => ("C19", c19r::part_registers(tier, "C19")),
+                "c05_opt" => ("C05", c19r::part_registers(tier, "C05")),
                 "c17_objects" => ("C17", c18s::part_names_across_objects(tier)),
                 "c15_dap" => ("C15", c15d::part_dap_data(tier)),
                 "c05_threads" => ("C05", mt::part_c05_threads(tier)),
@@ -175,6 +176,7 @@ fn run_check(id: &str, tier: Tier) -> i32 {
             r.parts.push(c01::part_c05(tier));
             r.parts.push(c12::part_c05_dap_frames(tier));
             r.parts.push(mt::part_c05_threads(tier));
+            r.parts.push(c19r::part_registers(tier, "C05"));
             finish(r)
         }
         "C04" => {
@@ -260,7 +262,7 @@ fn run_check(id: &str, tier: Tier) -> i32 {
         "C19" => {
             let mut r = Report::new("C19", tier, "exploration");
             r.parts.push(c19::part_c19(tier));
-            r.parts.push(c19r::part_registers(tier));
+            r.parts.push(c19r::part_registers(tier, "C19"));
             finish(r)
         }
         "C18" => {
